@@ -430,6 +430,20 @@ func skRun(in *skInput, sink *CaseSink, prop string) {
 	if bad == "" && finished {
 		bad, sig = skStructure(sl, rep.NodeDistribution[:], rep.SoftDeletes, int64(rep.NodeCount))
 	}
+	if bad == "" && finished {
+		// allocation statistics: a node is counted when its insert succeeds; these runs never free a
+		// node (rejected duplicates are handed back to the allocator uncounted), so allocations minus
+		// frees is the number of nodes ever linked
+		okIns := int64(0)
+		for _, o := range hist {
+			if o.op.Op == "ins" && o.ok {
+				okIns++
+			}
+		}
+		if rep.NodeAllocs != okIns || rep.NodeFrees != 0 {
+			bad, sig = fmt.Sprintf("statistics at quiescence: node_allocs=%d node_frees=%d, but %d inserts succeeded and no linked node was freed", rep.NodeAllocs, rep.NodeFrees, okIns), "c14-stats"
+		}
+	}
 	if bad == "" && iterBad != "" {
 		bad, sig = iterBad, "c15-backwards"
 	}
